@@ -83,11 +83,12 @@ theorem acceptPrefix_step (s : Scan) (pre : List Char) :
     (s.acceptPrefix pre).1.input = s.input ∧ s.pos ≤ (s.acceptPrefix pre).1.pos :=
   ScanB.acceptPrefix_step s pre
 
-/-- `/* … */` loop (F15 repair): every iteration consumes a character or ends; end of input raises -/
-theorem blockComment_terminates : ∀ (n : Nat) (s : Scan), s.input.size - s.pos < n →
-    (∃ s', blockCommentLoop n s = .ok s' ∧ s'.input = s.input ∧ s.pos ≤ s'.pos) ∨
-    (∃ msg l c s', blockCommentLoop n s = .error (.scan msg l c, s')) :=
-  ScanB.blockComment_terminates
+/-- `/* … */` loop (F15 repair): every iteration consumes a character or ends; end of input raises the error
+    built when the comment was opened -/
+theorem blockComment_terminates (posErr : Err) : ∀ (n : Nat) (s : Scan), s.input.size - s.pos < n →
+    (∃ s', blockCommentLoop posErr n s = .ok s' ∧ s'.input = s.input ∧ s.pos ≤ s'.pos) ∨
+    (∃ s', blockCommentLoop posErr n s = .error (posErr, s')) :=
+  ScanB.blockComment_terminates posErr
 
 /-- quoted-string loop: every iteration consumes at least one character; newline / end of input raise -/
 theorem quoted_terminates (posErr : Err) : ∀ (n : Nat) (s : Scan) (c : Option Char),
